@@ -2,7 +2,7 @@
    Model: Model/Sql.v; specification functions (also the oracle of engine "sql"): Corr/IOCorr.v
    (spec_insert, spec_rows, spec_column, spec_read, spec_frame). *)
 From Coq Require Import String.
-From QF Require Import Base.Prelude Model.Sql Model.IOFault Corr.IOCorr Proofs.SqlProofs.
+From QF Require Import Base.Prelude Model.Sql Model.IOFault Corr.IOCorr Proofs.SqlProofs Proofs.SqlProofs2.
 Local Open Scope N_scope.
 
 (* ---- statement text: table and n identifiers wrapped in the escape character, n placeholders
@@ -137,7 +137,314 @@ Example C19_all_null_column_is_an_error :
            (store_of [str "s"] (fst (to_sql f conf (fun _ => true)))) no_faults = Fail.
 Proof. vm_compute. reflexivity. Qed.
 
-(* What is NOT proved here: reading with coercions (Int64ToBool, StringToFloat) and with Precision > 0
-   ("configured coercions and float precision applied") is covered by the correspondence engine only:
-   strconv.ParseFloat and float.Fixed are parameters of the model, the engine checks them against
-   per-case oracle tables.  The round trip is stated for the configuration without them. *)
+(* ====================================================================================================
+   Second wave: reading with coercions and with Precision > 0, for EVERY configuration.
+
+   float.Fixed and strconv.ParseFloat are not modelled (floating point arithmetic): in every theorem
+   below [fixed : N -> Z -> N] (Fixed on bit patterns) and [pf : bytes -> option N] (ParseFloat, None =
+   error) are universally quantified, i.e. the statements hold whatever these two functions compute.
+   Auxiliary definitions (Proofs/SqlProofs2.v):
+     dispatch fixed c t      the type switch of Column.Scan (what Scan does when c.coerce == nil)
+     coerce_fn pf k v        the two shipped coercions as functions on driver values (None = error)
+     g_of pf conf name       the coercion configured for a column name (identity [Some] when there is none)
+     fix_val fixed p v       float.Fixed applied to a float64 driver value when p > 0, other values unchanged
+     prep g fixed p vals     the values of a column after coercion and rounding; NULLs bypass both;
+                             None as soon as the coercion reports an error for one value
+     spec_read_gen           IOCorr.spec_read with the values of column j going through
+                             prep (g_of pf conf name_j) fixed (q_precision conf) first
+     scan_col fixed pf c vs  (Proofs/SqlProofs.v) the fold of the model's col_scan over the values of one column *)
+
+(* scan_col is nothing but the model's Column.Scan applied value after value *)
+Theorem C19_scan_col_is_fold fixed pf (c : column) (v : dval) (vs : list dval) :
+  scan_col fixed pf c [] = Ok c /\
+  scan_col fixed pf c (v :: vs) = (do c' <- col_scan fixed pf c v; scan_col fixed pf c' vs).
+Proof. exact (conj eq_refl eq_refl). Qed.
+Print Assumptions C19_scan_col_is_fold.
+
+(* ---- (4a) Column.Scan with a coercion = the coercion applied to every non-NULL value, then the
+   ordinary type switch; NULL handling unchanged (Column.Null); an error of the coercion is an error
+   of Scan.  Without coercion Scan is the type switch. *)
+Theorem C19_scan_coerced fixed pf (c : column) (t : dval) :
+  (c_coerce c = None -> col_scan fixed pf c t = dispatch fixed c t) /\
+  (forall k, c_coerce c = Some k ->
+     col_scan fixed pf c t =
+     match t with
+     | DNull => col_null c
+     | _ => match coerce_fn pf k t with Some t' => dispatch fixed c t' | None => Fail end
+     end).
+Proof. exact (scan_coerced fixed pf c t). Qed.
+Print Assumptions C19_scan_coerced.
+
+(* what the shipped coercions do: Int64ToBool accepts int64 only (v != 0); StringToFloat accepts a
+   string that ParseFloat accepts - a []byte (what many drivers deliver for TEXT) is rejected *)
+Example C19_coerce_fn_example pf s x :
+  coerce_fn pf CoInt64ToBool (DInt 0) = Some (DBool false) /\
+  coerce_fn pf CoInt64ToBool (DInt (-3)) = Some (DBool true) /\
+  coerce_fn pf CoInt64ToBool (DStr s) = None /\
+  coerce_fn pf CoInt64ToBool (DBool true) = None /\
+  coerce_fn pf CoStringToFloat (DStr s) = option_map DFloat (pf s) /\
+  coerce_fn pf CoStringToFloat (DBytes s) = None /\
+  coerce_fn pf CoStringToFloat (DFloat x) = None.
+Proof. repeat split; reflexivity. Qed.
+
+(* toy stand-ins for the two unmodelled functions, used by the examples only *)
+Definition toy_fixed (x : N) (p : Z) : N := x + 1000 * Z.to_N p.
+Definition toy_pf (s : bytes) : option N :=
+  if bytes_eqb s (str "1.5") then Some 0x3FF8000000000000 else None.
+
+(* ---- (4b) one value: a column c (any coercion function g, any precision) scanning v behaves as the
+   column with the same data but neither coercion nor precision scanning the prepared value v' *)
+Theorem C19_scan_simulation fixed pf (g : dval -> option dval) (c c' : column) (v v' : dval) :
+  same_data c c' ->
+  (v = DNull /\ v' = DNull) \/ (v <> DNull /\ exists w, g v = Some w /\ v' = fix_val fixed (c_prec c) w) ->
+  match gen_scan fixed g c v with
+  | Ok c1 => exists c1', col_scan fixed pf c' v' = Ok c1' /\ same_data c1 c1'
+  | Fail => col_scan fixed pf c' v' = Fail
+  | Panic => False
+  end.
+Proof. exact (gen_scan_step fixed pf g c c' v v'). Qed.
+Print Assumptions C19_scan_simulation.
+
+Example C19_scan_simulation_example :
+  same_data (new_column 2 (Some CoStringToFloat)) (new_column 0 None)
+  /\ DStr (str "1.5") <> DNull
+  /\ coerce_fn toy_pf CoStringToFloat (DStr (str "1.5")) = Some (DFloat 0x3FF8000000000000)
+  /\ fix_val toy_fixed 2 (DFloat 0x3FF8000000000000) = DFloat (0x3FF8000000000000 + 2000).
+Proof. split; [apply same_data_strip; reflexivity|]. split; [discriminate|]. split; vm_compute; reflexivity. Qed.
+
+(* a whole column: if the prepared values form a column of one SQL type (IOCorr.spec_column), Data()
+   of a fresh Column with coercion co and precision prec after scanning vals is that column *)
+Theorem C19_column_coerced fixed pf (vals vals' : list dval) (d : coldata) (prec : Z) (co : option coerce_kind) :
+  prep (g_co pf co) fixed prec vals = Some vals' -> spec_column vals' = Some d ->
+  exists c, scan_col fixed pf (new_column prec co) vals = Ok c /\ col_data c = Some d
+            /\ coldata_len d = length vals.
+Proof. exact (scan_col_prep_spec fixed pf vals vals' d prec co). Qed.
+Print Assumptions C19_column_coerced.
+
+Example C19_column_coerced_example :
+  prep (g_co toy_pf (Some CoStringToFloat)) toy_fixed 2 [DNull; DStr (str "1.5"); DNull]
+  = Some [DNull; DFloat (0x3FF8000000000000 + 2000); DNull]
+  /\ spec_column [DNull; DFloat (0x3FF8000000000000 + 2000); DNull]
+     = Some (CFloat [nan_bits; 0x3FF8000000000000 + 2000; nan_bits]).
+Proof. split; vm_compute; reflexivity. Qed.
+
+(* a non-NULL value on which the column's coercion reports an error: the column scan reports an error *)
+Theorem C19_column_coercion_error fixed pf (vals : list dval) (prec : Z) (co : option coerce_kind) (v : dval) :
+  In v vals -> v <> DNull -> g_co pf co v = None -> scan_col fixed pf (new_column prec co) vals = Fail.
+Proof. exact (scan_col_coercion_error fixed pf vals prec co v). Qed.
+Print Assumptions C19_column_coercion_error.
+
+Example C19_column_coercion_error_example :
+  In (DStr (str "x")) [DInt 1; DStr (str "x")] /\ DStr (str "x") <> DNull
+  /\ g_co toy_pf (Some CoInt64ToBool) (DStr (str "x")) = None
+  /\ g_co toy_pf (Some CoStringToFloat) (DStr (str "x")) = None.
+Proof. repeat split; try reflexivity; [right; left; reflexivity|discriminate]. Qed.
+
+(* ---- (4c) C19_read_coerced: ReadSQL for every configuration - any coercion map, any precision.
+   spec_read_gen defined = distinct admissible column names, at least one row, and every column AFTER
+   coercion and rounding of one SQL type with NULLs only in float / text columns and one non-NULL value. *)
+Theorem C19_read_coerced fixed pf (conf : sql_config) (names : list bytes) (rows : list (list dval)) cols :
+  spec_read_gen fixed pf conf names rows = Some cols ->
+  read_sql fixed pf conf (mkRS names rows) no_faults = Ok cols.
+Proof. exact (read_sql_gen_spec fixed pf conf names rows cols). Qed.
+Print Assumptions C19_read_coerced.
+
+(* it generalises C19_read: without coercion map and precision spec_read_gen is spec_read *)
+Theorem C19_read_coerced_generalises_read fixed pf (conf : sql_config) names rows :
+  q_coerce conf = None -> (q_precision conf <= 0)%Z ->
+  spec_read_gen fixed pf conf names rows = spec_read names rows.
+Proof. exact (spec_read_gen_plain fixed pf conf names rows). Qed.
+Print Assumptions C19_read_coerced_generalises_read.
+
+Example C19_read_coerced_generalises_read_example :
+  let conf := mkCfg (str "t") 34 true 0 None in q_coerce conf = None /\ (q_precision conf <= 0)%Z.
+Proof. split; [reflexivity|discriminate]. Qed.
+
+(* columns b (Int64ToBool) and f (StringToFloat) coerced, x a float column, i an int column, Precision 2:
+   the NULLs of f and x (leading ones back-filled) are math.NaN() and do not go through Fixed; the parsed
+   value of f does *)
+Definition example_conf : sql_config :=
+  mkCfg (str "t") 0 false 2 (Some [(str "b", CoInt64ToBool); (str "f", CoStringToFloat)]).
+Example C19_read_coerced_example :
+  spec_read_gen toy_fixed toy_pf example_conf [str "b"; str "f"; str "x"; str "i"]
+    [[DInt 0; DNull; DNull; DInt 4]; [DInt 7; DStr (str "1.5"); DFloat 16; DInt 5]; [DInt 1; DNull; DNull; DInt 6]]
+  = Some [(str "b", CBool [false; true; true]);
+          (str "f", CFloat [nan_bits; 0x3FF8000000000000 + 2000; nan_bits]);
+          (str "x", CFloat [nan_bits; 2016; nan_bits]);
+          (str "i", CInt [4; 5; 6]%Z)].
+Proof. vm_compute. reflexivity. Qed.
+
+(* C19_coercion_error: a non-NULL value, anywhere in the result set, on which the coercion configured
+   for its column reports an error: ReadSQL returns Err (and does not panic) *)
+Theorem C19_coercion_error fixed pf (conf : sql_config) (rs : result_set) row j n v :
+  In row (rs_rows rs) -> nth_error (rs_names rs) j = Some n -> nth_error row j = Some v ->
+  v <> DNull -> g_of pf conf n v = None ->
+  read_sql fixed pf conf rs no_faults = Fail.
+Proof. exact (read_sql_coercion_error_fails fixed pf conf rs row j n v). Qed.
+Print Assumptions C19_coercion_error.
+
+(* the same for the shipped coercions: anything but an int64 in an Int64ToBool column, anything but a
+   string that ParseFloat accepts in a StringToFloat column *)
+Theorem C19_shipped_coercion_error fixed pf (conf : sql_config) (rs : result_set) row j n v k :
+  In row (rs_rows rs) -> nth_error (rs_names rs) j = Some n -> nth_error row j = Some v ->
+  co_of conf n = Some k ->
+  match k, v with
+  | _, DNull => False
+  | CoInt64ToBool, DInt _ => False
+  | CoStringToFloat, DStr s => pf s = None
+  | _, _ => True
+  end ->
+  read_sql fixed pf conf rs no_faults = Fail.
+Proof. exact (read_sql_shipped_coercion_error fixed pf conf rs row j n v k). Qed.
+Print Assumptions C19_shipped_coercion_error.
+
+Example C19_coercion_error_example :
+  let rs1 := mkRS [str "b"; str "f"] [[DInt 1; DStr (str "1.5")]; [DStr (str "x"); DStr (str "1.5")]] in
+  let rs2 := mkRS [str "b"; str "f"] [[DInt 1; DStr (str "1.5")]; [DInt 0; DStr (str "abc")]] in
+  (In [DStr (str "x"); DStr (str "1.5")] (rs_rows rs1) /\ nth_error (rs_names rs1) 0 = Some (str "b")
+   /\ nth_error [DStr (str "x"); DStr (str "1.5")] 0 = Some (DStr (str "x"))
+   /\ co_of example_conf (str "b") = Some CoInt64ToBool
+   /\ g_of toy_pf example_conf (str "b") (DStr (str "x")) = None)
+  /\ (co_of example_conf (str "f") = Some CoStringToFloat /\ toy_pf (str "abc") = None)
+  /\ read_sql toy_fixed toy_pf example_conf rs1 no_faults = Fail
+  /\ read_sql toy_fixed toy_pf example_conf rs2 no_faults = Fail.
+Proof. vm_compute. repeat split; auto. Qed.
+
+(* ReadSQL (model) never panics, whatever the configuration, the result set and the driver faults *)
+Theorem C19_read_never_panics fixed pf (conf : sql_config) (rs : result_set) (flt : sql_faults) :
+  read_sql fixed pf conf rs flt <> Panic.
+Proof. exact (read_sql_no_panic2 fixed pf conf rs flt). Qed.
+Print Assumptions C19_read_never_panics.
+
+(* NOT part of the property but what the code does: the block of reader.go that is meant to reject a
+   coercion map naming a column the result set does not have runs while colNames is still nil, so it
+   never reports anything: the entry is silently ignored. *)
+Example C19_coercion_of_absent_column_is_ignored :
+  read_sql toy_fixed toy_pf (mkCfg [] 0 false 0 (Some [(str "nosuch", CoInt64ToBool)]))
+           (mkRS [str "a"] [[DInt 1]; [DInt 2]]) no_faults
+  = Ok [(str "a", CInt [1; 2]%Z)].
+Proof. vm_compute. reflexivity. Qed.
+
+(* ---- (5) C19_read_precision: Precision p > 0 at column level (fresh Column{precision: p}, no coercion).
+   A float column: every value goes through float.Fixed; every NULL - the leading ones, back-filled,
+   included - is math.NaN() and does NOT go through Fixed.
+   fix_cell fixed p v = fixed x p for v = DFloat x, nan_bits for NULL. *)
+Theorem C19_read_precision fixed pf (p : Z) (vals : list dval) (xs : list N) :
+  (0 < p)%Z -> spec_column vals = Some (CFloat xs) ->
+  exists c, scan_col fixed pf (new_column p None) vals = Ok c
+            /\ col_data c = Some (CFloat (map (fix_cell fixed p) vals)).
+Proof. exact (scan_precision_float fixed pf p vals xs). Qed.
+Print Assumptions C19_read_precision.
+
+Example C19_read_precision_example :
+  spec_column [DNull; DNull; DFloat 16; DNull; DFloat 32] = Some (CFloat [nan_bits; nan_bits; 16; nan_bits; 32])
+  /\ map (fix_cell toy_fixed 3) [DNull; DNull; DFloat 16; DNull; DFloat 32] = [nan_bits; nan_bits; 3016; nan_bits; 3032].
+Proof. split; vm_compute; reflexivity. Qed.
+
+(* the same as a statement about ReadSQL, on a result set with the single column n *)
+Theorem C19_read_precision_result_set fixed pf (conf : sql_config) (n : bytes) (vals : list dval) (xs : list N) :
+  check_name n = true -> co_of conf n = None -> (0 < q_precision conf)%Z ->
+  spec_column vals = Some (CFloat xs) ->
+  read_sql fixed pf conf (mkRS [n] (map (fun v => [v]) vals)) no_faults
+  = Ok [(n, CFloat (map (fix_cell fixed (q_precision conf)) vals))].
+Proof. exact (read_sql_precision_float fixed pf conf n vals xs). Qed.
+Print Assumptions C19_read_precision_result_set.
+
+Example C19_read_precision_result_set_example :
+  check_name (str "x") = true /\ co_of example_conf (str "x") = None /\ (0 < q_precision example_conf)%Z.
+Proof. repeat split; vm_compute; reflexivity. Qed.
+
+(* int, bool and string columns come back unchanged whatever the precision *)
+Theorem C19_read_precision_non_float fixed pf (p : Z) (vals : list dval) (d : coldata) :
+  spec_column vals = Some d -> (forall xs, d <> CFloat xs) ->
+  exists c, scan_col fixed pf (new_column p None) vals = Ok c /\ col_data c = Some d.
+Proof. exact (scan_precision_other fixed pf p vals d). Qed.
+Print Assumptions C19_read_precision_non_float.
+
+Example C19_read_precision_non_float_example :
+  spec_column [DInt 1; DInt 2] = Some (CInt [1; 2]%Z)
+  /\ spec_column [DNull; DStr (str "a"); DBytes (str "b")] = Some (CStr [None; Some (str "a"); Some (str "b")])
+  /\ spec_column [DBool true] = Some (CBool [true]).
+Proof. repeat split; vm_compute; reflexivity. Qed.
+
+(* NaN and the infinities (exponent field all ones) are untouched PROVIDED float.Fixed returns them
+   unchanged - which is what its guard  if math.IsNaN(scaled) || math.Abs(scaled) >= 1<<53 { return num }
+   is there for; Fixed itself is not modelled, so this is a premise.  More generally
+   (SqlProofs2.scan_precision_fixpoint) a column whose float values are fixed points of Fixed is unchanged. *)
+Theorem C19_read_precision_nan_inf fixed pf (p : Z) (vals : list dval) (d : coldata) :
+  (forall x, exp_all_ones x = true -> fixed x p = x) ->
+  (forall x, In (DFloat x) vals -> exp_all_ones x = true) ->
+  spec_column vals = Some d ->
+  exists c, scan_col fixed pf (new_column p None) vals = Ok c /\ col_data c = Some d.
+Proof. exact (scan_precision_special fixed pf p vals d). Qed.
+Print Assumptions C19_read_precision_nan_inf.
+
+Theorem C19_nan_has_exponent_all_ones (x : N) : is_nan x = true -> exp_all_ones x = true.
+Proof. exact (is_nan_exp_all_ones x). Qed.
+Print Assumptions C19_nan_has_exponent_all_ones.
+
+Example C19_nan_has_exponent_all_ones_example : is_nan nan_bits = true /\ is_nan 0xFFF8000000000000 = true.
+Proof. split; vm_compute; reflexivity. Qed.
+
+Definition guarded_fixed (x : N) (p : Z) : N := if exp_all_ones x then x else toy_fixed x p.
+Example C19_read_precision_nan_inf_example :
+  (forall x, exp_all_ones x = true -> guarded_fixed x 2 = x)
+  /\ exp_all_ones 0x7FF0000000000000 = true /\ exp_all_ones 0xFFF0000000000000 = true
+  /\ exp_all_ones nan_bits = true /\ exp_all_ones 0x3FF8000000000000 = false
+  /\ spec_column [DFloat 0x7FF0000000000000; DNull; DFloat 0x7FF8000000000123; DFloat 0xFFF0000000000000]
+     = Some (CFloat [0x7FF0000000000000; nan_bits; 0x7FF8000000000123; 0xFFF0000000000000]).
+Proof.
+  split; [intros x H; unfold guarded_fixed; now rewrite H|].
+  repeat split; vm_compute; reflexivity.
+Qed.
+
+(* ---- (6) C19_roundtrip_options: the round trip for every configuration in which (i) no column of the
+   frame is bound in the coercion map (the map may bind other names) and (ii) Precision <= 0, or
+   float.Fixed at that precision is the identity on every float cell of the frame at its index positions *)
+Theorem C19_roundtrip_options fixed pf (f : frame) (conf : sql_config) cols :
+  (forall n, In n (map fst (fcols f)) -> co_of conf n = None) ->
+  ((q_precision conf <= 0)%Z \/
+   forall rows row x, spec_rows f = Some rows -> In row rows -> In (DFloat x) row ->
+                      fixed x (q_precision conf) = x) ->
+  spec_frame f = Some cols ->
+  exists log,
+    to_sql f conf (fun _ => true) = (log, SOk) /\
+    length log = length (findex f) /\
+    read_sql fixed pf conf (store_of (map fst (fcols f)) log) no_faults = Ok cols.
+Proof. exact (roundtrip_options fixed pf f conf cols). Qed.
+Print Assumptions C19_roundtrip_options.
+
+Definition example_frame2 : frame :=
+  mkFrame [(str "x", CFloat [0x7FF0000000000000; 0x3FF8000000000000; 0x7FF8000000000123]); (str "i", CInt [1; 2; 3]%Z)]
+          [2; 0]%nat.
+Definition example_conf2 : sql_config := mkCfg (str "t") 34 true 2 (Some [(str "other", CoInt64ToBool)]).
+
+Example C19_roundtrip_options_example :
+  (forall n, In n (map fst (fcols example_frame2)) -> co_of example_conf2 n = None)
+  /\ (forall rows row x, spec_rows example_frame2 = Some rows -> In row rows -> In (DFloat x) row ->
+                         guarded_fixed x (q_precision example_conf2) = x)
+  /\ spec_frame example_frame2
+     = Some [(str "x", CFloat [0x7FF8000000000123; 0x7FF0000000000000]); (str "i", CInt [3; 1]%Z)].
+Proof.
+  split; [|split].
+  - intros n [<-|[<-|[]]]; reflexivity.
+  - intros rows row x H. vm_compute in H. inversion H; subst; clear H.
+    intros [<-|[<-|[]]] [E|[E|[]]]; inversion E; subst; reflexivity.
+  - vm_compute. reflexivity.
+Qed.
+
+(* What is NOT proved here:
+   * float.Fixed and strconv.ParseFloat themselves are not modelled: every theorem of the second wave is
+     stated for arbitrary functions [fixed] and [pf]; that the real Fixed rounds to p decimals, leaves
+     NaN / infinities / large values alone (premise of C19_read_precision_nan_inf), or is the identity on
+     given cells (premise (ii) of C19_roundtrip_options) is checked by the correspondence engine only
+     (per-case oracle tables).  In particular the round trip with Precision > 0 is proved only for frames
+     whose float cells Fixed leaves unchanged: a cell with more decimals comes back rounded, and
+     Fixed(-0.0, p) = +0.0 in the implementation.
+   * The round trip through a coerced column (a bool column stored as int and read back with Int64ToBool,
+     a float column stored as text and read back with StringToFloat) is not stated: the writer never
+     produces such stores; C19_read_coerced covers the reading side for any result set.
+   * Result sets outside spec_read_gen (mixed types after coercion, NULL in an int / bool column, no
+     non-NULL value, duplicate or inadmissible names, no rows) are outside the quantifier; for them only
+     C19_coercion_error, C19_null_in_int_or_bool_rejected and C19_read_never_panics apply.
+   * database/sql (argument conversion, Rows.Scan dispatch) is trusted, as before. *)
